@@ -33,8 +33,8 @@ inline void evaluate(const Case& c, uint32_t armed, Verdict& V, EvalCtx& X) {
 	analyse(X.main, X.A);
 	X.classes = classify(X.main, X.A);
 	V.classes = X.classes;
+	checkTrace(X.main, X.A, armed, V);   // (handles overflowed traces itself: only the termination oracle applies to them)
 	if (X.main.overflow) return;
-	checkTrace(X.main, X.A, armed, V);
 	auto on = [&](int k) { return (armed >> k) & 1u; };
 	// fill independence: behaviour never depends on the prior contents of the memory the machine is built in
 	if ((on(17) || on(9) || on(18)) && !X.uninit) {
